@@ -413,7 +413,8 @@ def structure_function_vk(seperation, r0, L0):
                 * scipy.special.kv(5. / 6., (2 * numpy.pi * seperation) / L0))
             )
 
-    return D_vk
+    # at zero seperation the closed form is 0 * infinity (nan); the structure function there, and its limit, is 0
+    return numpy.where(numpy.equal(seperation, 0), 0., D_vk)[()]
 
 
 def structure_function_kolmogorov(separation, r0):
